@@ -59,6 +59,8 @@ class Hooks(W.Hooks):
             self.table_ops += 1
         if si.op in ("drop", "drop_cycle"):
             self.drops += 1
+        if si.op == "attr_assign" and si.info.get("ok") and "__" in str(si.info.get("accessor")):
+            self.indexed_assigns = getattr(self, "indexed_assigns", 0) + 1
         if si.kind == "write" and si.info.get("ok") and si.operands and si.operands[0].origin == "tuple":
             b, a_ = si.info.get("before"), W.snap(si.operands[0].obj)
             if b and b[2] and a_[2] and b[2][0] != a_[2][0]:
@@ -132,11 +134,12 @@ def run(case, ctx):
         ctx.nontrivial()
     ctx.label("has_shared_pair", int(h.shared_pairs > 0))
     ctx.label("has_table_constructor", int(h.table_ops > 0))
+    ctx.label("column_replaced_through_indexed_accessor", int(getattr(h, "indexed_assigns", 0) > 0))
 
 
 def parts(tier):
     mx = 30 if tier == "quick" else 60
     classes = ["construct", "view", "write", "lifetime", "derive", "rename"]
-    extra = ["vec_tuple"] * 14 + ["slice", "slice", "slice", "copy", "mask", "sort", "math", "set_slice", "set_mask", "attr_assign", "attr_assign", "drop_tuple", "drop_tuple", "set_int", "set_int", "set_slice", "drop", "churn", "gc", "rshift", "vec_of_vecs", "attr_assign"]
+    extra = ["vec_tuple"] * 14 + ["slice", "slice", "slice", "copy", "mask", "sort", "math", "set_slice", "set_mask", "attr_assign", "attr_assign", "drop_tuple", "drop_tuple", "set_int", "set_int", "set_slice", "drop", "churn", "gc", "rshift", "vec_of_vecs", "attr_assign", "table_dupnames", "table_dupnames"]
     return [Part("histories", run, strategy=lambda t: W.program(max_steps=mx, classes=classes, always=("construct", "write", "lifetime"), extra_ops=extra),
-                 examples=(3000, 40000), shards=(12, 16), floors={"has_shared_pair": 0.12, "has_table_constructor": 0.5})]
+                 examples=(3000, 40000), shards=(12, 16), floors={"has_shared_pair": 0.12, "has_table_constructor": 0.5, "column_replaced_through_indexed_accessor": 0.005})]
